@@ -324,11 +324,11 @@ def main():
         # bounded stand-in (never counted as proof): see gridrun.py for when it runs
         if spec.get('grid'):
             pre_viol = classify(pid, spec, results, known_for)[0]
-            # quick tier on a tree whose proof went through: a sample of the grid (every 8th case of each family);
-            # the whole grid when the proof is undecided, when an obligation failed, and in the thorough tier
+            # the whole grid in both tiers (built with opt-level 1 it takes 7-30 s); `quick_stride` in checks.py / VERIF_GRID_QUICK_STRIDE
+            # can thin it out in the quick tier (of every family of cases the first four and then every k-th)
             full = bool(undecided or pre_viol or a.tier == 'thorough')
             try:
-                grid_res = gridrun.run(pid, spec['grid'], a.repo, workdir, stride=1 if full else int(os.environ.get('VERIF_GRID_QUICK_STRIDE', str(spec['grid'].get('quick_stride', 8)))))
+                grid_res = gridrun.run(pid, spec['grid'], a.repo, workdir, stride=1 if full else int(os.environ.get('VERIF_GRID_QUICK_STRIDE', str(spec['grid'].get('quick_stride', 1)))))
             except gridrun.Undecided as e:
                 grid_undecided = str(e)
     finally:
@@ -427,7 +427,7 @@ def main():
             'per_function_solver': [x for r in results for x in r.get('function_breakdown', [])][:80],
             'bounded_units': bounded_units + ([{'harness': 'grid ' + ', '.join('%s (%d cases, %d failing)' % (k, v['cases'], v['fails']) for k, v in grid_res['per_grid'].items()),
                                                'bound': grid_res['bound'], 'status': 'FAILED' if grid_res['failures'] else 'SUCCESS', 'cmd': grid_res['cmd'], 'wall_s': grid_res['wall_s'],
-                                               'why_it_ran': 'proof undecided on this tree' if undecided else ('an obligation failed' if proof_violations else ('thorough tier' if a.tier == 'thorough' else 'quick tier: sampled'))}] if grid_res else []),
+                                               'why_it_ran': 'proof undecided on this tree' if undecided else ('an obligation failed' if proof_violations else ('thorough tier' if a.tier == 'thorough' else 'quick tier'))}] if grid_res else []),
             'grid_undecided': grid_undecided,
             'unproved': spec.get('unproved', []),
             'known_findings_hit': [k['obligation'] for _f, k in known_hits],
